@@ -56,6 +56,8 @@ VARIABLES
   wdCount,         \* [pool -> number of onWaitDone calls]
   runCancelled,    \* [pool -> BOOLEAN]  runCancel() called by checkAllInstancesAreFinished
   startCancelled,  \* [pool -> BOOLEAN]  instanceStartCancel()
+  runClosed,       \* [pool -> BOOLEAN]  runCtx.Done() is closed (observable)
+  startClosed,     \* [pool -> BOOLEAN]  instanceStartCtx.Done() is closed (observable)
   prov, provCh,    \* provider goroutine idle|run|done; its 1-buffered result channel empty|<class>
   ammoLeft, qClosed,
   agg, aggCh,
@@ -69,14 +71,14 @@ VARIABLES
   closes,          \* [pool -> [inst -> number of Close calls]]
   resBag,          \* [pool -> set of [id, c]]   instance results sent and not yet received
   aw,              \* the await goroutine [pc |-> idle|loop|check|onerr|done, toWait, started, awaited,
-                   \*                      (+ startcancel, runcancel), provSeen, aggSeen, startSeen, resOpen, pend, after]
+                   \*                      provSeen, aggSeen, startSeen, resOpen, pend, after]
   failed,          \* ghost: [pool -> set of causes: non-context component errors / panics that happened]
   fwd,             \* ghost: [pool -> cause forwarded through awaitErr, or "none"]
   supp             \* ghost: [pool -> set of causes suppressed by onErrAwaited]
 
 engVars  == <<cancelReq, userCancel, engDefer, cancelAtRet, engI, engRet, engCh, waitRet>>
 poolVars == <<poolPc, poolRet, wdCount>>
-ctxVars  == <<runCancelled, startCancelled>>
+ctxVars  == <<runCancelled, startCancelled, runClosed, startClosed>>
 provVars == <<prov, provCh, ammoLeft, qClosed>>
 aggVars  == <<agg, aggCh>>
 stVars   == <<st, startCh>>
@@ -98,8 +100,11 @@ ERet(k, p, c)  == [k |-> k, p |-> p, c |-> c]
 \* step is written before cancel() is called, and another goroutine may read the context in between).
 EngineCtxDone == userCancel \/ engDefer                        \* deferred cancel() of Engine.Run
 PoolDone(p)   == EngineCtxDone \/ poolPc[p] \in {"report", "done"}   \* deferred cancel() of instancePool.Run
-RunDone(p)    == runCancelled[p] \/ PoolDone(p)
-StartDone(p)  == startCancelled[p] \/ RunDone(p)
+\* cancel() closes the context's own Done channel first and its children afterwards, one by one: a reader of the
+\* run / start context can still see it open although the parent (or the cancel decision) is already visible to
+\* others.  CtxProp is that propagation.  (Pool and engine ctx are only ever read as "done", so no lag is modelled.)
+RunDone(p)    == runClosed[p]
+StartDone(p)  == startClosed[p]
 
 (* ---- error values ------------------------------------------------------ *)
 \* A component result is abstracted to the VALUE of its cause (pkg/errors.Cause), because that is all
@@ -140,6 +145,8 @@ InitFor(pl) ==
   /\ wdCount = [p \in 1..Len(pl.pools) |-> 0]
   /\ runCancelled = [p \in 1..Len(pl.pools) |-> FALSE]
   /\ startCancelled = [p \in 1..Len(pl.pools) |-> FALSE]
+  /\ runClosed = [p \in 1..Len(pl.pools) |-> FALSE]
+  /\ startClosed = [p \in 1..Len(pl.pools) |-> FALSE]
   /\ prov = [p \in 1..Len(pl.pools) |-> "idle"]
   /\ provCh = [p \in 1..Len(pl.pools) |-> "empty"]
   /\ ammoLeft = [p \in 1..Len(pl.pools) |-> pl.pools[p].ammo]
@@ -431,7 +438,7 @@ InstCheck(p, i) ==
      ELSE IF Tok(p, i) = 0
           THEN ipc' = [ipc EXCEPT ![p][i] = "exit"] /\ SchedEndSeen(p) /\ UNCHANGED icls
           ELSE ipc' = [ipc EXCEPT ![p][i] = "acq"] /\ UNCHANGED <<startCancelled, icls>>
-  /\ UNCHANGED <<plan, engVars, poolVars, runCancelled, provVars, aggVars, stVars, facVars, itok, ishots, gun, closes, resBag, stok, awVars, failed>>
+  /\ UNCHANGED <<plan, engVars, poolVars, runCancelled, runClosed, startClosed, provVars, aggVars, stVars, facVars, itok, ishots, gun, closes, resBag, stok, awVars, failed>>
 
 \* return ctx.Err() after the loop
 InstExit(p, i) ==
@@ -458,7 +465,7 @@ InstWait(p, i) ==
                /\ IF PP(p).shared THEN stok' = [stok EXCEPT ![p] = @ - 1] /\ UNCHANGED itok
                   ELSE itok' = [itok EXCEPT ![p][i] = @ - 1] /\ UNCHANGED stok
                /\ UNCHANGED startCancelled
-  /\ UNCHANGED <<plan, engVars, poolVars, runCancelled, provVars, aggVars, stVars, facVars, ishots, icls, gun, closes, resBag, awVars, failed>>
+  /\ UNCHANGED <<plan, engVars, poolVars, runCancelled, runClosed, startClosed, provVars, aggVars, stVars, facVars, ishots, icls, gun, closes, resBag, awVars, failed>>
 
 \* gun.Shoot(ammo): may panic (plan); the deferred recover() turns it into an error
 Panics(p, i) == PP(p).panicInst = i /\ PP(p).panicShot = ishots[p][i] + 1
@@ -527,20 +534,16 @@ AwaitInstance(p, r) ==
   /\ AwLoop(p) /\ aw[p].resOpen /\ r \in resBag[p]
   /\ resBag' = [resBag EXCEPT ![p] = @ \ {r}]
   /\ IF r.c = "ooa"
-     THEN aw' = [aw EXCEPT ![p].awaited = @ + 1, ![p].pc = IF aw[p].startSeen THEN "check" ELSE "startcancel"]
-     ELSE aw' = [aw EXCEPT ![p].awaited = @ + 1,
+     THEN /\ aw' = [aw EXCEPT ![p].awaited = @ + 1, ![p].pc = "check"]
+          \* out of ammo before the start result: ah.instanceStartCancel() (takes effect through CtxProp)
+          /\ startCancelled' = [startCancelled EXCEPT ![p] = IF aw[p].startSeen THEN @ ELSE TRUE]
+     ELSE /\ UNCHANGED startCancelled
+          /\ aw' = [aw EXCEPT ![p].awaited = @ + 1,
                               ![p].pc = IF IsCtx(RunDone(p), r.c) THEN "check" ELSE "onerr",
                               ![p].pend = IF IsCtx(RunDone(p), r.c) THEN "" ELSE r.c,
                               ![p].after = IF IsCtx(RunDone(p), r.c) THEN "" ELSE "check"]
   /\ failed' = [failed EXCEPT ![p] = IF r.c = "ooa" \/ IsCtx(RunDone(p), r.c) THEN @ ELSE @ \cup {r.c}]
-  /\ UNCHANGED <<plan, engVars, poolVars, ctxVars, provVars, aggVars, stVars, facVars, ipc, itok, ishots, icls, gun, closes, stok, fwd, supp>>
-
-\* out of ammo before the start result: ah.instanceStartCancel()
-StartCancelDo(p) ==
-  /\ aw[p].pc = "startcancel"
-  /\ startCancelled' = [startCancelled EXCEPT ![p] = TRUE]
-  /\ aw' = [aw EXCEPT ![p].pc = "check"]
-  /\ UNCHANGED <<plan, engVars, poolVars, runCancelled, provVars, aggVars, stVars, facVars, instVars, fwd, supp, failed>>
+  /\ UNCHANGED <<plan, engVars, poolVars, runCancelled, runClosed, startClosed, provVars, aggVars, stVars, facVars, ipc, itok, ishots, icls, gun, closes, stok, fwd, supp>>
 
 \* onErrAwaited, case ah.awaitErr <- err: unbuffered, needs instancePool.Run parked in its final select
 \* (the two goroutines take this step together: Run receives the error and returns it)
@@ -568,22 +571,25 @@ AllAwaited(p) == aw[p].startSeen /\ aw[p].awaited >= aw[p].started
 CheckAllFin(p) ==
   /\ aw[p].pc = "check" /\ AllAwaited(p)
   /\ Assert(resBag[p] = {}, "Unexpected run result")
-  /\ aw' = [aw EXCEPT ![p].pc = "runcancel", ![p].resOpen = FALSE, ![p].toWait = @ - 1]
-  /\ UNCHANGED <<plan, engVars, poolVars, ctxVars, provVars, aggVars, stVars, facVars, instVars, fwd, supp, failed>>
-
-\* ah.runCancel(): signal to provider and aggregator that the pool run is finished
-RunCancelDo(p) ==
-  /\ aw[p].pc = "runcancel"
+  /\ aw' = [aw EXCEPT ![p].pc = "loop", ![p].resOpen = FALSE, ![p].toWait = @ - 1]
+  \* ah.runCancel(): signal to provider and aggregator that the pool run is finished (takes effect through CtxProp)
   /\ runCancelled' = [runCancelled EXCEPT ![p] = TRUE]
-  /\ aw' = [aw EXCEPT ![p].pc = "loop"]
-  /\ UNCHANGED <<plan, engVars, poolVars, startCancelled, provVars, aggVars, stVars, facVars, instVars, fwd, supp, failed>>
+  /\ UNCHANGED <<plan, engVars, poolVars, startCancelled, runClosed, startClosed, provVars, aggVars, stVars, facVars, instVars, fwd, supp, failed>>
+
+\* propagation of a cancellation to the run context and on to the instance start context
+CtxProp(p) ==
+  /\ \/ /\ ~runClosed[p] /\ (runCancelled[p] \/ PoolDone(p))
+        /\ runClosed' = [runClosed EXCEPT ![p] = TRUE] /\ UNCHANGED startClosed
+     \/ /\ ~startClosed[p] /\ (startCancelled[p] \/ runClosed[p])
+        /\ startClosed' = [startClosed EXCEPT ![p] = TRUE] /\ UNCHANGED runClosed
+  /\ UNCHANGED <<plan, engVars, poolVars, runCancelled, startCancelled, provVars, aggVars, stVars, facVars, instVars, awVars, failed>>
 
 CheckAllNot(p) ==
   /\ aw[p].pc = "check" /\ ~AllAwaited(p)
   /\ aw' = [aw EXCEPT ![p].pc = "loop"]
   /\ UNCHANGED <<plan, engVars, poolVars, ctxVars, provVars, aggVars, stVars, facVars, instVars, fwd, supp, failed>>
 
-CheckAll(p) == CheckAllFin(p) \/ CheckAllNot(p) \/ RunCancelDo(p) \/ StartCancelDo(p)
+CheckAll(p) == CheckAllFin(p) \/ CheckAllNot(p)
 
 \* loop left: close(awaitErr); onWaitDone()
 AwaitExit(p) ==
@@ -610,7 +616,7 @@ Done == Terminated /\ UNCHANGED vars          \* keeps TLC's deadlock check mean
 
 Next ==
   \/ EngStep \/ UserCancel \/ UserCancelDo \/ WaitReturn
-  \/ \E p \in Pools : PoolStep(p) \/ ProvStep(p) \/ AggStep(p) \/ StartStep(p) \/ AwaitStep(p)
+  \/ \E p \in Pools : CtxProp(p) \/ PoolStep(p) \/ ProvStep(p) \/ AggStep(p) \/ StartStep(p) \/ AwaitStep(p)
                       \/ \E i \in Insts : InstStep(p, i)
   \/ Done
 
@@ -622,7 +628,7 @@ Fairness ==
   /\ \A p \in UNION {1..Len(pl.pools) : pl \in Plans} :
        /\ WF_vars(p \in Pools /\ PoolStep(p)) /\ WF_vars(p \in Pools /\ ProvStep(p))
        /\ WF_vars(p \in Pools /\ AggStep(p)) /\ WF_vars(p \in Pools /\ StartStep(p))
-       /\ WF_vars(p \in Pools /\ AwaitStep(p))
+       /\ WF_vars(p \in Pools /\ AwaitStep(p)) /\ WF_vars(p \in Pools /\ CtxProp(p))
        /\ \A i \in Insts : WF_vars(p \in Pools /\ InstStep(p, i))
 FairSpec == Spec /\ Fairness
 \* only Engine.Run's own goroutine is scheduled: promptness of a cancelled Run must not depend on anyone else
